@@ -11,7 +11,7 @@
 (*           seq src split  ok, ctx = _get_context()  or  exc + the words  *)
 (*                          of the exception message                       *)
 (*   ran, rt   contexts of the values that left the pipeline; rtx = they   *)
-(*             are compared exactly (at most one Cache in the pipeline)    *)
+(*             were recorded (pipelines with two Caches are not run)       *)
 (*   only  0 = check everything; i > 0 = only element i; Len(els)+1 =    *)
 (*         only the run-time part (used to localise a rejection)           *)
 (* The freedom for bare accumulator branches is existential: a record is   *)
